@@ -151,7 +151,7 @@ Proof.
        self <- arr_set self i (u_not w t3') ;;
        let i := (i + 1) in
        Done (Continue (self, i)))) with (fuel := fuel) (k := 0%nat) (s := (self0, Z.of_nat k0)) as (e & He & HQ).
-  - intros j [self i] (-> & Hj & Hlen & Hs & Hfst) Hc. rewrite ltb_of_nat in Hc. apply Nat.ltb_lt in Hc.
+  - intros j [self i] (-> & Hj & Hlen & Hs & Hfst) Hc. cond_true_in Hc.
     split; [lia|]. rewrite arr_get_nat by lia. cbn [bind]. rewrite arr_set_nat by lia. cbn [bind].
     split; [lia|]. split; [lia|]. split; [rewrite list_set_length; exact Hlen|].
     replace (k0 + S j)%nat with (S (k0 + j)) by lia.
@@ -162,7 +162,7 @@ Proof.
     rewrite nth_skipn_add.
     pose proof (nth_skipn_add self (k0 + j) 0) as H1. pose proof (nth_skipn_add a (k0 + j) 0) as H2.
     rewrite Nat.add_0_r in H1, H2. rewrite <- H1, <- H2, Hs. reflexivity.
-  - intros j [self i] (-> & Hj & Hlen & Hs & Hfst) Hc. rewrite ltb_of_nat in Hc. apply Nat.ltb_ge in Hc.
+  - intros j [self i] (-> & Hj & Hlen & Hs & Hfst) Hc. cond_false_in Hc.
     assert (k0 + j = n)%nat as Hn by lia. rewrite Hn in *.
     rewrite firstn_all2 in Hfst by lia. subst self.
     rewrite (firstn_all2 (skipn k0 a)) by (rewrite skipn_length; lia). reflexivity.
